@@ -171,6 +171,14 @@ func (fr *faultRun) alter(d *sim.Delivery) ([]byte, bool) {
 				v = big.NewInt(1)
 			}
 			nv = v.Bytes()
+		case "bits-2047": // an under-sized modulus (one bit short), odd
+			v := new(big.Int).Rsh(honest, 1)
+			v.SetBit(v, 0, 1)
+			nv = v.Bytes()
+		case "bits-1024":
+			v := new(big.Int).Rsh(honest, uint(honest.BitLen()/2))
+			v.SetBit(v, 0, 1)
+			nv = v.Bytes()
 		case "remove":
 			removeField(m, f.Field)
 			return
@@ -474,9 +482,12 @@ func runFault(c faultCase, mode string) ev.Outcome {
 	if c.F.Kind == "wrong-secret" {
 		return runWrongSecret(c)
 	}
+	if strings.HasPrefix(c.F.Kind, "weak-params-") {
+		return runWeakParams(c)
+	}
 	fr.install()
 	x.net.Run(sim.FIFO{}, 200000)
-	covered := coveredField(c.F.MsgType, c.F.Field.Name) && (c.F.Kind == "+1" || c.F.Kind == "rand" || c.F.Kind == "other" || c.F.Kind == "remove" || strings.HasPrefix(c.F.Kind, "commit:"))
+	covered := coveredField(c.F.MsgType, c.F.Field.Name) && (c.F.Kind == "+1" || c.F.Kind == "rand" || c.F.Kind == "other" || c.F.Kind == "remove" || strings.HasPrefix(c.F.Kind, "commit:") || strings.HasPrefix(c.F.Kind, "bits-"))
 	out := ev.Outcome{Label: fmt.Sprintf("%s %s.%s kind=%s dev=%d", c.Run.Proto, shortType(c.F.MsgType), c.F.Field.Name, c.F.Kind, c.F.Deviator)}
 	out.Nontrivial = fr.consumed > 0
 	if fr.applied == 0 || fr.na {
@@ -549,6 +560,11 @@ func enumCells(run protoRun, kinds []string, listKinds []string, salt int, maxPe
 			}
 			for _, k := range kinds {
 				cells = append(cells, faultCase{Run: run, F: faultSpec{Deviator: e.From, MsgType: e.Type, Field: ref, Kind: k, Recip: recip, Salt: salt}})
+			}
+			if ref.Name == "paillier_n" || ref.Name == "n_tilde" { // under-sized parameters
+				for _, k := range []string{"bits-2047", "bits-1024"} {
+					cells = append(cells, faultCase{Run: run, F: faultSpec{Deviator: e.From, MsgType: e.Type, Field: ref, Kind: k, Recip: recip, Salt: salt}})
+				}
 			}
 		}
 		for name := range lens {
@@ -726,6 +742,40 @@ func runWrongSecret(c faultCase) ev.Outcome {
 	if p := judgeHonest(x, dev, covered, "C05"); p != nil {
 		out.Err = fmt.Errorf("%s, party %d uses a wrong secret share: %s", run, dev, p.msg)
 		out.Sig = fmt.Sprintf("%s:wrong-secret:%s", p.sig, run.Proto)
+	}
+	return out
+}
+
+
+// runWeakParams: the deviator takes part with a structurally correct but under-sized Paillier key and
+// ring-Pedersen modulus (its own proofs about them are honest). The property does not say such a party
+// must be refused; it says nothing bad may come out and blame may only name the deviator.
+func runWeakParams(c faultCase) ev.Outcome {
+	run := c.Run
+	var bits int
+	fmt.Sscanf(c.F.Kind, "weak-params-%d", &bits)
+	run.WeakPre, run.WeakBits = []int{c.F.Deviator}, bits
+	x := run.build()
+	dev := c.F.Deviator
+	if run.Proto == "ecdsa-resharing" {
+		dev += x.nOld
+	}
+	x.net.Run(sim.FIFO{}, 200000)
+	out := ev.Outcome{Label: fmt.Sprintf("%s weak-params bits=%d member=%d", run.Proto, bits, c.F.Deviator), Nontrivial: true}
+	aborted := false
+	for _, nd := range x.net.Nodes {
+		if nd.Idx != dev && nd.Errored() {
+			aborted = true
+		}
+	}
+	if aborted {
+		out.Label += " (refused)"
+	} else {
+		out.Label += " (ACCEPTED by the honest parties)"
+	}
+	if p := judgeHonest(x, dev, false, "C05"); p != nil {
+		out.Err = fmt.Errorf("%s, party %d brings %d-bit parameters: %s", run, dev, bits, p.msg)
+		out.Sig = fmt.Sprintf("%s:weak-params:%s", p.sig, run.Proto)
 	}
 	return out
 }
